@@ -1,5 +1,7 @@
 """C13 CrossHair harnesses: BIT block de-interleave, frame count, X axis, TIF block walk."""
 import logging
+import os
+PART = int(os.environ.get('VERIF_PART', '-1'))
 logging.disable(logging.CRITICAL)
 from engine import mark
 from engine.fakenp import FakeNp
@@ -143,27 +145,33 @@ def _tif(ty, prev, nxt):
     return _PY_STRUCT.pack(ty, prev, nxt)
 
 
-def build_file(passes, near=False):
-    """passes: list of (nch, inc, [payload blocks]).  Returns the TIF-marked file bytes."""
+def build_file(passes, near=False, term=0):
+    """passes: list of (nch, inc, [payload blocks]).  Returns the TIF-marked file bytes.  term: how the file ends - 0 with the end-of-pass and the
+    end-of-file marker, 1 without the end-of-file marker, 2 with neither (the medium ends after the last data block: the reader takes the end
+    of the medium as the end of the pass)."""
     out = b''
     prev = 0
     pos = 0
-    for nch, inc, blocks in passes:
+    for pi, (nch, inc, blocks) in enumerate(passes):
         for pl in [(FIRST_NEAR if near else FIRST)[(nch, inc)]] + blocks:
             nxt = pos + 12 + len(pl)
             out = out + _tif(0, prev, nxt) + pl
             prev, pos = pos, nxt
+        if term == 2 and pi == len(passes) - 1:
+            return out
         nxt = pos + 12
         out = out + _tif(1, prev, nxt)
         prev, pos = pos, nxt
-    out = out + _tif(1, prev, pos + 12)
+    if term == 0:
+        out = out + _tif(1, prev, pos + 12)
     return out
 
 
-def check_file(npass: int, nch: int, nb: int, f0: int, f1: int, inc: bool, near: bool = False) -> bool:
+def check_file(npass: int, nch: int, nb: int, f0: int, f1: int, inc: bool, near: bool = False, term: int = 0) -> bool:
     """
-    pre: 1 <= npass <= 2 and 1 <= nch <= 2 and 0 <= nb <= 2
-    pre: 1 <= f0 <= 2 and 1 <= f1 <= 2
+    pre: 1 <= npass <= 3 and 1 <= nch <= 2 and 0 <= nb <= 2
+    pre: 1 <= f0 <= 2 and 1 <= f1 <= 2 and 0 <= term <= 2
+    pre: PART < 0 or term == PART
     post: _
     """
     # nb = 0: a log pass whose header is followed directly by the end-of-pass marker (no data): a frame array with the header's channels, no frames
@@ -172,7 +180,7 @@ def check_file(npass: int, nch: int, nb: int, f0: int, f1: int, inc: bool, near:
     passes = []
     for p in range(npass):
         passes.append((nch, inc, [data_block(k, nch, frames[k], syms[k]) for k in range(nb)]))
-    f = SymFile(build_file(passes, near))
+    f = SymFile(build_file(passes, near, term))
     # the file object is used for several calls: the type test first, then two reads (each must start from the beginning of the file)
     if not ReadBIT.is_bit_file(f):
         return False
